@@ -24,7 +24,7 @@ LEVEL = "exploration"
 RULE = ("scenario = NDJSON byte stream of 1..12 lines (valid messages and junk of each class) x cut positions (seeded, 1-byte, "
         "targeted inside UTF-8 sequences / CRLF / after LF, plus a systematic sweep of every single cut of fixed base streams) x burst timing; "
         "non-trivial = at least one cut fell strictly inside a line, or a junk line preceded a valid one")
-PROBES = ["consumer_listens_to_notifications_only", "child_exited_with_unread_output", "earlier_session_ended_mid_line", "legacy_request_stream_registered", "legacy_request_stream_abandoned", "burst_over_100_lines_in_one_read", "cut_inside_utf8_sequence", "cut_inside_crlf", "cut_right_after_lf", "junk_before_valid", "one_byte_chunks",
+PROBES = ["junk_lines_while_child_never_reads_stdin", "child_half_closed_and_client_wrote", "consumer_listens_to_notifications_only", "child_exited_with_unread_output", "earlier_session_ended_mid_line", "legacy_request_stream_registered", "legacy_request_stream_abandoned", "burst_over_100_lines_in_one_read", "cut_inside_utf8_sequence", "cut_inside_crlf", "cut_right_after_lf", "junk_before_valid", "one_byte_chunks",
           "line_separator_chars_in_payload"]
 PROBES_THOROUGH = ["line_of_several_mib", "read_capped_at_max_bytes"]
 TIERS = {"quick": {"runs": 15000, "wall": 45.0}, "thorough": {"runs": 1000000, "wall": 560.0}}
@@ -196,8 +196,16 @@ def generate(rng: random.Random, tier: str) -> dict:
         prelude = {"tail": rng.choice(['{"jsonrpc":"2.0","method":"notifications/mess', '{"jsonrpc":"2.0","id":1,"result":{"t":"\u00e9', "garbage without newline"])}
     # the consumer only listens to notifications: it closes the main read stream right after entering, the session stays open
     close_read = bool(burst) and rng.random() < 0.5
-    return {"v": 1, "close_read": close_read, "exit_after": exit_after, "prelude": prelude, "legacy_streams": legacy, "lines": lines, "cuts": cuts, "gap": gap, "hops": rng.choice([0, 0, 2]),
-            "protocol_version": rng.choice([None, None, "2025-06-18", "2025-03-26"])}
+    pv = rng.choice([None, None, "2025-06-18", "2025-03-26"])
+    # the child is a pure emitter: it never takes anything from its stdin (whatever the client writes there piles up)
+    stdin_stalled = pv != "2025-06-18" and rng.random() < 0.15
+    # the child closes its own stdin early but keeps talking; the client writes something after that
+    half_close = None
+    if rng.random() < 0.1:
+        half_close = {"child_closes_stdin_at": rng.choice([0, 1, 5]), "client_sends_at": rng.choice([2, 6, 20]), "n": rng.choice([1, 3])}
+        gap = max(gap, rng.choice([3, 10]))
+    return {"v": 1, "stdin_stalled": stdin_stalled, "half_close": half_close, "close_read": close_read, "exit_after": exit_after, "prelude": prelude, "legacy_streams": legacy, "lines": lines, "cuts": cuts, "gap": gap, "hops": rng.choice([0, 0, 2]),
+            "protocol_version": pv}
 
 
 _BASE_SEEDS = [11, 23, 37, 41]
@@ -231,6 +239,10 @@ SHRINK_LISTS = ["lines", "cuts"]
 
 
 def simplify(scn):
+    if scn.get("stdin_stalled"):
+        c = copy.deepcopy(scn); c["stdin_stalled"] = False; yield c
+    if scn.get("half_close"):
+        c = copy.deepcopy(scn); c["half_close"] = None; yield c
     if scn.get("close_read"):
         c = copy.deepcopy(scn); c["close_read"] = False; yield c
     if scn.get("prelude"):
@@ -329,7 +341,11 @@ def execute(scn: dict) -> dict:
                 sim.at(sim.now() + t + ticks(scn["exit_after"]), child.exit, 0, tie=2, hops=scn["hops"])
                 sim.fault("child_exits_with_unread_output")
 
-        factory = ProcessFactory(sim, lambda idx, argv, env: {"on_start": on_start, "read_mode": "eager"})
+        stalled = bool(scn.get("stdin_stalled"))
+        factory = ProcessFactory(sim, lambda idx, argv, env: {"on_start": on_start, "read_mode": "never" if stalled else "eager",
+                                                              "capacity": 64 if stalled else 65536})
+        if stalled:
+            sim.fault("child_never_reads_its_stdin")
         st["factory"] = factory
         with patched((anyio, "open_process", factory)):
             client = stdio.StdioClient(StdioParameters(command="sim-child", args=[]))
@@ -360,6 +376,19 @@ def execute(scn: dict) -> dict:
                     async for m in stream:
                         into.append((sim.rec("client", "got", None), m))
 
+                hc = scn.get("half_close")
+                if hc:
+                    child_ = factory.children[-1]
+                    sim.at(sim.now() + ticks(hc["child_closes_stdin_at"]), child_.close_stdin_child_side, tie=2)
+
+                    def client_writes():
+                        for q in range(hc["n"]):
+                            try:
+                                _write.send_nowait({"jsonrpc": "2.0", "method": "notifications/progress", "params": {"progressToken": "t", "progress": q}})
+                            except Exception:
+                                pass
+                        sim.fault("client_wrote_after_child_closed_its_stdin")
+                    sim.at(sim.now() + ticks(hc["client_sends_at"]), client_writes, tie=2)
                 async with anyio.create_task_group() as tg:
                     if scn.get("close_read"):
                         read_stream.close()
@@ -459,6 +488,10 @@ def execute(scn: dict) -> dict:
     compare("notification", gotn, expn)
     if any("giant" in ln for ln in scn["lines"]):
         probe("line_of_several_mib")
+    if scn.get("stdin_stalled") and junk_idx:
+        probe("junk_lines_while_child_never_reads_stdin")
+    if scn.get("half_close"):
+        probe("child_half_closed_and_client_wrote")
     out["history"] = {"bytes": len(data), "cuts": cuts[:20], "pieces": len(pieces), "line_kinds": kinds,
                       "expected": len(expo), "delivered": len(got), "expected_notifications": len(expn), "delivered_notifications": len(gotn)}
     return out
